@@ -19,6 +19,7 @@ import Qryn.Gen.VersionSites
 import Qryn.Proofs.Signal
 import Qryn.Proofs.ConfinePromLabels
 import Qryn.Read.SignalCtx
+import Qryn.Tempo.SearchCtl
 /-! # C13 — every read is confined to the requested time window and signal type
 
 `Confine.confined` is a structural predicate on statements (every base-table scan carries timestamp
@@ -842,5 +843,119 @@ theorem seeded_types_counterexample :
 example : some (sigCtx 0).tp ∈ entryTypes .logs := by decide
 example : some (sigCtx 2).tp ∈ entryTypes .metrics := by decide
 example : some (sigCtx 2).tp ∈ labelArgs "reader/controller/promQueryLabelsController.go" := by decide
+
+end Qryn.C13
+
+/-! ## the legacy Tempo search with a window end that is not positive (`fromNS` / `toNS` ≤ 0 reach `TempoService.Search`): the
+    guards of `GetTracesQuery` / `SQLIndexQuery` are `> 0` — for the service 0 means "no bound" -/
+namespace Qryn.C13
+open Qryn Qryn.Sql Qryn.Confine Qryn.Tempo
+
+/-- **tempo_search_half_window.** Each end on its own: whatever the other end is, a positive `from` keeps every returned row above
+    it and a positive `to` keeps every returned row at or below it (every request, version state, database). -/
+theorem tempo_search_half_window (o : Oracles) (db : SearchDb) (r : SearchReq) (ver : VersionInfo) (row : Row)
+    (h : row ∈ searchRows o db (planSearch r ver)) :
+    (0 < r.fromNs → ∃ ts, row.get "start_time_unix_nano" = .int ts ∧ r.fromNs < ts) ∧
+    (0 < r.toNs → ∃ ts, row.get "start_time_unix_nano" = .int ts ∧ ts ≤ r.toNs) := by
+  obtain ⟨_, hc⟩ := searchRows_sub o db _ row h
+  have hall := List.all_eq_true.mp hc
+  have hmem : ∀ e ∈ spanTimeConds r, SCond.plain e ∈ (planSearch r ver).conds := by
+    intro e he
+    unfold planSearch
+    simp only [List.mem_append, List.mem_map, spanConds]
+    exact Or.inr ⟨e, Or.inl he, rfl⟩
+  constructor
+  · intro hf
+    have h1 := hall _ (hmem (gt (.raw "start_time_unix_nano") (.int r.fromNs)) (by simp [spanTimeConds, hf]))
+    simp only [scondHolds] at h1
+    exact cmp_gt_int o row _ _ h1
+  · intro ht
+    have h2 := hall _ (hmem (le (.raw "start_time_unix_nano") (.int r.toNs)) (by simp [spanTimeConds, ht]))
+    simp only [scondHolds] at h2
+    exact cmp_le_int o row _ _ h2
+
+/-- **tempo_search_nonpositive_reads_all.** What the statement reads when neither end is positive: the span read carries NO time
+    conjunct at all (`spanTimeConds r = []`: a non-positive end is dropped, not compared), and without tags, duration bounds and
+    limit it has no condition whatever — it returns one row per span of the table, the whole table. -/
+theorem tempo_search_nonpositive_reads_all (o : Oracles) (db : SearchDb) (r : SearchReq) (ver : VersionInfo)
+    (hf : r.fromNs ≤ 0) (ht : r.toNs ≤ 0) :
+    spanTimeConds r = [] ∧
+    (r.tags = none → r.minDurNs ≤ 0 → r.maxDurNs ≤ 0 → r.limit ≤ 0 →
+      (planSearch r ver).conds = [] ∧ (searchRows o db (planSearch r ver)).length = db.spans.length) := by
+  have h0 : spanTimeConds r = [] := by
+    have a : ¬ r.fromNs > 0 := by omega
+    have c : ¬ r.toNs > 0 := by omega
+    simp [spanTimeConds, a, c]
+  refine ⟨h0, fun htags hmin hmax hlim => ?_⟩
+  have hd : spanDurConds r = [] := by
+    have a : ¬ r.minDurNs > 0 := by omega
+    have c : ¬ r.maxDurNs > 0 := by omega
+    simp [spanDurConds, a, c]
+  have hconds : (planSearch r ver).conds = [] := by simp [planSearch, htags, spanConds, h0, hd]
+  refine ⟨hconds, ?_⟩
+  have hl : (planSearch r ver).limit = none := by
+    have a : ¬ r.limit > 0 := by omega
+    simp [planSearch, a]
+  have hfil : ∀ l : Table, l.filter (fun r => ([] : List SCond).all (scondHolds o db r)) = l := by
+    intro l; induction l with
+    | nil => rfl
+    | cons x xs ih => simp [List.filter, ih]
+  unfold searchRows
+  simp only [hconds, hl, hfil]
+  split
+  · simp
+  · rw [(Qryn.sortBy_perm _ _).length_eq]; simp
+
+/-- the unconditional form of `tempo_search_results_in_window`: for ANY pair of ends handed to the service -/
+def tempo_search_results_in_window_full : Prop :=
+  ∀ (o : Oracles) (db : SearchDb) (r : SearchReq) (ver : VersionInfo) (row : Row), row ∈ searchRows o db (planSearch r ver) →
+    ∃ ts, row.get "start_time_unix_nano" = .int ts ∧ r.fromNs < ts ∧ ts ≤ r.toNs
+
+/-- a window of the service that ends before 1970: `end = −1 s` (what `GET /api/search?start=90000&end=-1` handed to the service
+    before `fix: /api/search refuses a start / end …`) -/
+def negEndReq : SearchReq := { cexReq with tags := none, toNs := -1000000000 }
+
+/-- **tempo_search_service_counterexample.** `tempo_search_results_in_window` (hypotheses `0 < from`, `0 < to`) is the `_partial`
+    form: at the SERVICE the unconditional statement fails — with `to = −10⁹` the upper bound is not written and the span of
+    `cexDb`, 23 hours after `from`, is returned although the window `(from, to]` is empty. Kernel-checked. -/
+theorem tempo_search_service_counterexample : ¬ tempo_search_results_in_window_full := by
+  intro h
+  have hrow : [("trace_id", Val.str [1]), ("span_id", .str [2]), ("service_name", .str []), ("name", .str []),
+      ("timestamp_ns", .int 172799000000000), ("duration_ns", .int 5), ("root_service_name", .str []), ("root_trace_name", .str []),
+      ("start_time_unix_nano", .int 172799000000000), ("duration_ms", .int 0)] ∈ searchRows cexOracles cexDb (planSearch negEndReq []) := by
+    decide +kernel
+  obtain ⟨ts, hts, _, hle⟩ := h cexOracles cexDb negEndReq [] _ hrow
+  have : ts = 172799000000000 := by
+    have e : Row.get [("trace_id", Val.str [1]), ("span_id", .str [2]), ("service_name", .str []), ("name", .str []),
+      ("timestamp_ns", .int 172799000000000), ("duration_ns", .int 5), ("root_service_name", .str []), ("root_trace_name", .str []),
+      ("start_time_unix_nano", .int 172799000000000), ("duration_ms", .int 0)] "start_time_unix_nano" = .int 172799000000000 := by decide
+    rw [e] at hts; injection hts with hts; exact hts.symm
+  subst this
+  exact absurd hle (by decide)
+
+/-- **tempo_http_ends_positive.** … and no HTTP request gets there: `parseTraceSearchParams` (after the fix; `Tempo.ctlSecond`, tied by
+    the `http-tempo-ends` stream) refuses a `start` / `end` second that is negative or above `math.MaxInt64 / 10⁹`; 0 / absent is
+    the clock default (now − 6 h, now: positive after 1970); every other value reaches the service as `s · 10⁹`, positive and
+    within int64 — the hypotheses of `tempo_search_confined` / `tempo_search_results_in_window` for that end. -/
+theorem tempo_http_ends_positive (s : Int) :
+    (ctlSecond s = .refused ↔ (s < 0 ∨ 9223372036 < s)) ∧ (ctlSecond s = .default_ ↔ s = 0) ∧
+    (∀ n, ctlSecond s = .ns n → n = s * 1000000000 ∧ 0 < n ∧ n < 2 ^ 63) := by
+  unfold ctlSecond maxSec
+  refine ⟨?_, ?_, ?_⟩
+  · by_cases h : s < 0 ∨ s > 9223372036
+    · simp [h]
+    · by_cases h0 : s = 0 <;> simp [h, h0]
+  · by_cases h : s < 0 ∨ s > 9223372036
+    · simp [h]; omega
+    · by_cases h0 : s = 0 <;> simp [h, h0]
+  · intro n hn
+    by_cases h : s < 0 ∨ s > 9223372036
+    · simp [h] at hn
+    · by_cases h0 : s = 0
+      · simp [h, h0] at hn
+      · simp only [h, h0, if_false] at hn
+        injection hn with hn
+        subst hn
+        refine ⟨rfl, by omega, by omega⟩
 
 end Qryn.C13
